@@ -19,7 +19,14 @@ import (
 // ---- PRNG: splitmix64, every random choice derives from it -----------------
 type Rng struct{ s uint64 }
 
-func NewRng(seed uint64) *Rng { return &Rng{s: seed*0x9E3779B97F4A7C15 + 0x1234567} }
+// NewRng hashes the seed first: consecutive seeds must not give the same stream shifted by one draw.
+func NewRng(seed uint64) *Rng {
+	z := seed ^ 0xD6E8FEB86659FD93
+	z = (z ^ (z >> 32)) * 0xD6E8FEB86659FD93
+	z = (z ^ (z >> 32)) * 0xD6E8FEB86659FD93
+	z ^= z >> 32
+	return &Rng{s: z*0x9E3779B97F4A7C15 + 0x1234567}
+}
 func (r *Rng) U64() uint64 {
 	r.s += 0x9E3779B97F4A7C15
 	z := r.s
